@@ -408,7 +408,9 @@ def sort_issues(issues, reverse=False):
             if key in int_sort_list:
                 result.append(d.get(key, -1))
             else:
-                result.append(d.get(key, ""))
+                # Columns may be identified by number rather than by name: never compare a str with an int
+                value = d.get(key, "")
+                result.append((1, value) if isinstance(value, int) else (0, str(value)))
         return tuple(result)
 
     issues = sorted(issues, key=_get_keys, reverse=reverse)
